@@ -6,7 +6,7 @@ import gevent.event
 
 class HttpPeer(object):
     def __init__(self, sock, responder):
-        """responder(request_dict, k) -> bytes | ('partial', bytes) | 'drop' | 'stall' | ('stall-after', bytes)"""
+        """responder(request_dict, k) -> bytes | ('partial', bytes) | 'drop' | 'stall' | ('stall-after', bytes) | ('trickle-body', head, body, dt)"""
         self.sock = sock
         self.responder = responder
         self.requests = []
@@ -46,6 +46,13 @@ class HttpPeer(object):
                     self.sock.sendall(r[1])
                     self.sock.close()
                     return
+                if isinstance(r, tuple) and r[0] == 'trickle-body':
+                    # ('trickle-body', head, body, dt): the header block at once, then one body byte every dt seconds
+                    self.sock.sendall(r[1])
+                    for i in range(len(r[2])):
+                        gevent.sleep(r[3])
+                        self.sock.sendall(r[2][i:i + 1])
+                    continue
                 if isinstance(r, tuple) and r[0] == 'stall-after':
                     self.sock.sendall(r[1])
                     gevent.event.Event().wait()
